@@ -238,10 +238,13 @@ func VHC02Schedule() {
 // selected root; $index restarts for every selected array.
 func VHC02Selectors() {
 	nsel := vh.Choose("nsel", 4)
-	order := vh.Choose("order", 2)
+	order := vh.Choose("order", 3)
 	all := []string{"$.s1", "$.s2", "$.s3"}
-	if order == 1 {
+	switch order {
+	case 1:
 		all = []string{"$.s3", "$.s1", "$.s2"}
+	case 2:
+		all = []string{"$.s1", "$.s1", "$.s2"} // the same selection twice: the second pass sees the value as read, not as the rules left it
 	}
 	sels := all[:nsel]
 	p1 := vh.Bool("p1")
@@ -254,7 +257,7 @@ func VHC02Selectors() {
 			"t":  tag + "root", "p": true,
 		}
 	}
-	prog := "BEGINFILE { print 'BF', $ is array }\n$.p { print $.t }\n$.p && $.e { print 'i', $index }\nENDFILE { print 'EF', $ is array }\nEND { print 'E' }"
+	prog := "BEGINFILE { print 'BF', $ is array }\n$.p { print $.t; $.t = 'seen'; $.extra = 1 }\n$.p && $.e { print 'i', $index }\nENDFILE { print 'EF', $ is array }\nEND { print 'E' }"
 	var out vh.Out
 	ds := &vh.DocStream{Items: []any{doc("x"), doc("y")}}
 	_, err := lang.EvalProgram(prog, []lang.InputFile{{Name: "f", Reader: ds}}, sels, &out, false)
